@@ -481,6 +481,80 @@ pub fn unread_stream(b: u64, seed: u64, kind: &str) -> Value {
         "plan":{"scenario":"unread_stream","kind":kind,"storing_peers":n}})
 }
 
+/// Silent bursts: the four peers a client knows stop answering; a dozen lookups, 700 ms apart, all time out (the in-flight table
+/// fills up and is compacted again and again). Nobody ever answered slowly, so the request timeout is still the initial one -
+/// and when the peers are back, a lookup takes as long as it did before.
+pub fn silent_bursts(b: u64, seed: u64) -> Value {
+    let mut sim = Sim::new(seed ^ (b * 733 + 1), NetCfg { lat_min_ms: 5, lat_max_ms: 15, cadence_ms: 100, ..Default::default() });
+    let ids: Vec<[u8; 20]> = (0..4).map(|i| crypto::sha1(&[i as u8, 91])).collect();
+    let silent = std::rc::Rc::new(std::cell::Cell::new(false));
+    let s2 = silent.clone();
+    let net = FakeNet::install(&mut sim, &ids, Box::new(move |_, _, _| if s2.get() { Reply::Silent } else { Reply::Default }));
+    let c = sim.add_node(NodeOpts::client(private_ip(2), &net.bootstrap()));
+    sim.run_for(2500);
+    let mut rng = crate::rng::Rng::new(seed ^ b);
+    let time_one = |sim: &mut Sim, rng: &mut crate::rng::Rng| -> u64 {
+        let t0 = sim.now_ns();
+        let mut call = sim.call_get(c, GetKind::FindNode, rng.id(), "probe");
+        sim.poke(c);
+        sim.run_calls(&mut [&mut call], 30_000);
+        (call.done_ns().unwrap_or(sim.now_ns()) - t0) / MS
+    };
+    let before_ms = time_one(&mut sim, &mut rng);
+    silent.set(true);
+    let mut tmax = 0u64;
+    for _ in 0..12 {
+        let mut call = sim.call_get(c, GetKind::Immutable, rng.id(), "burst");
+        sim.poke(c);
+        sim.run_for(700);
+        call.poll(sim.now_ns());
+        if let Some(s) = sim.snapshot(c) {
+            tmax = tmax.max(s.inflight.timeout_ns);
+        }
+    }
+    sim.run_for(1500);
+    silent.set(false);
+    let after_ms = time_one(&mut sim, &mut rng);
+    if let Some(s) = sim.snapshot(c) {
+        tmax = tmax.max(s.inflight.timeout_ns);
+    }
+    let panicked = sim.nodes[c].panicked;
+    sim.shutdown();
+    json!({"e":"bursts","b":b,"tmax_ms":tmax / MS,"slow_replies":0,"probe_before_ms":before_ms,"probe_after_ms":after_ms,"panicked":panicked,
+        "plan":{"scenario":"silent_bursts","lookups":12}})
+}
+
+/// A node whose only bootstrap peer never answers is asked for a lookup of its own id (what `bootstrapped()` does) ten times in
+/// a row: every call contacts one node, hears nothing and returns after about one request timeout - no round trip was ever
+/// observed that could justify a longer one.
+pub fn silent_bootstrap(b: u64, seed: u64) -> Value {
+    let mut sim = Sim::new(seed ^ (b * 389 + 5), NetCfg { lat_min_ms: 5, lat_max_ms: 15, cadence_ms: 100, ..Default::default() });
+    let ids: Vec<[u8; 20]> = vec![crypto::sha1(b"silent bootstrap peer")];
+    let net = FakeNet::install(&mut sim, &ids, Box::new(|_, _, _| Reply::Silent));
+    let c = sim.add_node(NodeOpts::client(private_ip(2), &net.bootstrap()));
+    let own = sim.snapshot(c).map(|s| crate::bencode::unhex(&s.id)).unwrap_or_default();
+    let mut id = [0u8; 20];
+    if own.len() == 20 {
+        id.copy_from_slice(&own);
+    }
+    let mut durations = vec![];
+    let mut tmax = 0u64;
+    for _ in 0..10 {
+        let t0 = sim.now_ns();
+        let mut call = sim.call_get(c, GetKind::FindNode, id, "bootstrapped");
+        sim.poke(c);
+        sim.run_calls(&mut [&mut call], 30_000);
+        durations.push((call.done_ns().unwrap_or(sim.now_ns()) - t0) / MS);
+        if let Some(s) = sim.snapshot(c) {
+            tmax = tmax.max(s.inflight.timeout_ns);
+        }
+    }
+    let panicked = sim.nodes[c].panicked;
+    sim.shutdown();
+    json!({"e":"bursts","b":b,"tmax_ms":tmax / MS,"slow_replies":0,"probe_before_ms":durations[0],"probe_after_ms":durations.iter().cloned().max().unwrap_or(0),
+        "durations":durations,"panicked":panicked,"plan":{"scenario":"silent_bootstrap","calls":10}})
+}
+
 pub fn run(args: &Args) -> i32 {
     let seed = args.u64("seed", 1);
     if args.get("unread").is_some() {
@@ -491,6 +565,10 @@ pub fn run(args: &Args) -> i32 {
                 out.line(&unread_stream(900_000 + rep * 10 + i as u64, seed, kind));
                 lines += 1;
             }
+            out.line(&silent_bursts(900_005 + rep * 10, seed));
+            lines += 1;
+            out.line(&silent_bootstrap(900_006 + rep * 10, seed));
+            lines += 1;
         }
         out.finish();
         if let Some(p) = args.get("summary") {
